@@ -16,7 +16,7 @@ Proof. vm_compute. repeat split. Qed.
 
 (* every access to a guarded field (declared or inferred guard map) on every call path from an
    entry point holds the guarding mutex — writes exclusively; every path returns lock-free *)
-Theorem repo_well_locked : well_locked_from guards funcs entries = true.
+Theorem repo_well_locked : well_locked_from guards owners funcs entries = true.
 Proof. vm_compute. reflexivity. Qed.
 
 (* the declared guard map is re-derived by the inference rule on this tree (a sanity check of the rule) *)
@@ -61,7 +61,7 @@ Proof. vm_compute. repeat split. Qed.
    goroutines at conflicting accesses to poolToCounters / activeAds / the Announce fields *)
 Theorem repo_race_free : forall bodies c0 c,
   inline_entries fuel0 funcs entries = Some bodies -> idle c0 -> steps bodies c0 c -> ~ racy guards c.
-Proof. intros bodies c0 c. apply (lockset_sound_from guards funcs entries). exact repo_well_locked. Qed.
+Proof. intros bodies c0 c. apply (lockset_sound_from guards owners funcs entries). exact repo_well_locked. Qed.
 
 Print Assumptions repo_facts_wellformed.
 Print Assumptions repo_well_locked.
